@@ -1,10 +1,12 @@
 import OptiModel.Model.Real
 import OptiModel.Proofs.NumReal
+import OptiModel.Proofs.TraceLaws
 import Mathlib.Tactic.FieldSimp
 import Mathlib.Tactic.Ring
 import Mathlib.Tactic.LinearCombination
 import Mathlib.Tactic.Positivity
 import Mathlib.Tactic.Linarith
+import Mathlib.Tactic.NormNum
 /-!
 # C02  Every traced ray obeys Snell / reflection law on the prescribed surface
 Theorems over ℝ about `Model/Real.lean` (the model the correspondence run ties to
@@ -447,5 +449,971 @@ theorem traceSurf_opd (s : RSurf ℝ) (w : ℝ) (r : Ray ℝ) (t : ℝ) :
 /-! ### non-vacuity -/
 example : (0:ℝ) ≤ radicand ⟨0, 0, 0, 0, 0, 1, 1, 0⟩ 0 0 (-1) 1 1.5 := by
   unfold radicand; norm_num
+
+/-! ## whole surfaces: `traceSurf`
+
+The theorems above are about the single functions.  From here on they are composed along
+`traceSurf` (localize → distance → propagate → clip → normal → refract/reflect → globalize →
+record) and then along `traceLens`.  `TraceLaws.stepRay s w q t` is the per-ray body of `traceSurf`
+(`q` the localised ray, `t` its distance), `TraceLaws.arriveAt s w q t` the ray handed to
+`interact`, `TraceLaws.traceRay s w r = stepRay s w (localize r) (distance (localize r))`; for
+planes and standard conics `traceSurf s w rays = rays.map (traceRay s w)` (`TraceLaws.traceSurf_map`).
+-/
+open TraceLaws
+
+theorem localize_unit (c : Cs ℝ) (r : Ray ℝ) : dir2 (c.localize r) = dir2 r := by
+  have := localize_ddot c r r
+  simpa [dir2, ddot, sq] using this
+
+/-- the recorded (global) ray, taken back to the surface frame, is what `interact` returned -/
+theorem stepRay_local (s : RSurf ℝ) (w : ℝ) (q : Ray ℝ) (t : ℝ) :
+    s.cs.localize (stepRay s w q t) = interact s (arriveAt s w q t) := localize_globalize _ _
+
+/-- local coordinates of the recorded point: start point + `t` × direction -/
+theorem stepRay_pos (s : RSurf ℝ) (w : ℝ) (q : Ray ℝ) (t : ℝ) :
+    (s.cs.localize (stepRay s w q t)).x = q.x + t * q.L ∧
+    (s.cs.localize (stepRay s w q t)).y = q.y + t * q.M ∧
+    (s.cs.localize (stepRay s w q t)).z = q.z + t * q.N := by
+  rw [stepRay_local]
+  exact ⟨by rw [interact_x, arriveAt_x], by rw [interact_y, arriveAt_y], by rw [interact_z, arriveAt_z]⟩
+
+/-! ### 1. the recorded point lies on the prescribed surface -/
+
+/-- one root of the quadratic is negative (masked to `inf` by `t[t < 0] = inf`), the other is
+admissible and lands nearer to the vertex plane than the ray started — the usual situation at a
+concave surface (`R < 0`, the ray starts inside the sphere): the admissible root is returned.
+
+Over ℝ `Num.inf` is the junk value 0, so the masked root competes with `|z|` itself instead of
+`|z + inf·N| = inf`; the third conjunct makes the admissible root win here too, as it always does in
+IEEE arithmetic (for `N ≠ 0`), so that model-over-ℝ and code select the same root. -/
+theorem conic_one_root_on_surface (R k : ℝ) (r : Ray ℝ) :
+    let a := (conicABC R k r).1
+    let b := (conicABC R k r).2.1
+    let c := (conicABC R k r).2.2
+    let d := b*b - 4*a*c
+    0 ≤ d → a ≠ 0 →
+    ((-b + Real.sqrt d)/(2*a) < 0 ∧ 0 ≤ (-b - Real.sqrt d)/(2*a) ∧
+        |r.z + (-b - Real.sqrt d)/(2*a) * r.N| < |r.z|) ∨
+      (0 ≤ (-b + Real.sqrt d)/(2*a) ∧ (-b - Real.sqrt d)/(2*a) < 0 ∧
+        |r.z + (-b + Real.sqrt d)/(2*a) * r.N| < |r.z|) →
+    let t := stdDistance R k r
+    Q R k (r.x + t*r.L) (r.y + t*r.M) (r.z + t*r.N) = 0 := by
+  intro a b c d hd ha h t
+  have r1 := conic_root R k r 1 (Or.inl rfl) hd ha
+  have r2 := conic_root R k r (-1) (Or.inr rfl) hd ha
+  simp only [one_mul] at r1
+  simp only [neg_one_mul, ← sub_eq_add_neg] at r2
+  have hinf : (Num.inf : ℝ) = 0 := rfl
+  have ht : t = (-b + Real.sqrt d)/(2*a) ∨ t = (-b - Real.sqrt d)/(2*a) := by
+    simp only [t, stdDistance, selectRoot, maskNeg, hinf]
+    num_real
+    have e4 : ((4:ℕ):ℝ)/((1:ℕ):ℝ) = 4 := by norm_num
+    simp only [e4]
+    rcases h with ⟨h1, h2, h3⟩ | ⟨h1, h2, h3⟩
+    · have h2' : ¬ ((-b - Real.sqrt d)/(2*a) < 0) := not_lt.mpr h2
+      have h3' : ¬ (|r.z + 0 * r.N| ≤ |r.z + (-b - Real.sqrt d)/(2*a) * r.N|) := by
+        rw [zero_mul, add_zero]; exact not_le.mpr h3
+      simp only [a, b, c, d] at ha h1 h2' h3' ⊢
+      simp only [h1, h2', h3', if_true, if_false, ha]
+      right; trivial
+    · have h1' : ¬ ((-b + Real.sqrt d)/(2*a) < 0) := not_lt.mpr h1
+      have h3' : |r.z + (-b + Real.sqrt d)/(2*a) * r.N| ≤ |r.z + 0 * r.N| := by
+        rw [zero_mul, add_zero]; exact h3.le
+      simp only [a, b, c, d] at ha h1' h2 h3' ⊢
+      simp only [h1', h2, h3', if_true, if_false, ha]
+      left; trivial
+  rcases ht with h | h <;> rw [h]
+  · exact r1
+  · exact r2
+
+/-- discriminant of the quadratic solved by `StandardGeometry.distance` -/
+noncomputable def disc (R k : ℝ) (q : Ray ℝ) : ℝ :=
+  (conicABC R k q).2.1 * (conicABC R k q).2.1 - 4 * (conicABC R k q).1 * (conicABC R k q).2.2
+
+/-- quadratic branch: real roots, both admissible (`t ≥ 0`: none is masked to `inf`) -/
+def QuadBranch (R k : ℝ) (q : Ray ℝ) : Prop :=
+  0 ≤ disc R k q ∧ (conicABC R k q).1 ≠ 0 ∧
+  0 ≤ (-(conicABC R k q).2.1 + Real.sqrt (disc R k q)) / (2 * (conicABC R k q).1) ∧
+  0 ≤ (-(conicABC R k q).2.1 - Real.sqrt (disc R k q)) / (2 * (conicABC R k q).1)
+
+/-- quadratic branch with exactly one admissible root (see `conic_one_root_on_surface`) -/
+def OneRoot (R k : ℝ) (q : Ray ℝ) : Prop :=
+  0 ≤ disc R k q ∧ (conicABC R k q).1 ≠ 0 ∧
+  (((-(conicABC R k q).2.1 + Real.sqrt (disc R k q)) / (2 * (conicABC R k q).1) < 0 ∧
+    0 ≤ (-(conicABC R k q).2.1 - Real.sqrt (disc R k q)) / (2 * (conicABC R k q).1) ∧
+    |q.z + (-(conicABC R k q).2.1 - Real.sqrt (disc R k q)) / (2 * (conicABC R k q).1) * q.N| < |q.z|) ∨
+   (0 ≤ (-(conicABC R k q).2.1 + Real.sqrt (disc R k q)) / (2 * (conicABC R k q).1) ∧
+    (-(conicABC R k q).2.1 - Real.sqrt (disc R k q)) / (2 * (conicABC R k q).1) < 0 ∧
+    |q.z + (-(conicABC R k q).2.1 + Real.sqrt (disc R k q)) / (2 * (conicABC R k q).1) * q.N| < |q.z|))
+
+/-- linear branch (`a = 0`, e.g. a paraboloid met by an axis-parallel ray): `t = −c/b` -/
+def LinBranch (R k : ℝ) (q : Ray ℝ) : Prop :=
+  (conicABC R k q).1 = 0 ∧ (conicABC R k q).2.1 ≠ 0
+
+/-- the guards under which `geometry.distance` is a genuine intersection distance, on the ray in
+the surface frame.  Outside them the implementation produces non-finite values which ℝ cannot
+represent: a plane behind the ray (`t < 0`) gives `nan`, a negative discriminant gives `nan`
+(`sqrt`), two negative roots give `inf`; `a = 0 = b` divides by zero.  The Newton–Raphson families
+have no guard here (`False`): their distance is the result of an iteration with a tolerance, the
+point is on the surface only up to that tolerance (and see known finding F22). -/
+def HitGuard : Geom ℝ → Ray ℝ → Prop
+  | .plane, q => q.N ≠ 0 ∧ 0 ≤ -q.z / q.N
+  | .standard R k, q => QuadBranch R k q ∨ LinBranch R k q ∨ OneRoot R k q
+  | _, _ => False
+
+/-- the implicit equation of the prescribed shape, in the surface frame -/
+def OnSurface : Geom ℝ → Ray ℝ → Prop
+  | .plane, p => p.z = 0
+  | .standard R k, p => (1 + k) * p.z^2 - 2 * R * p.z + p.x^2 + p.y^2 = 0
+  | _, _ => False
+
+theorem Q_eq (R k x y z : ℝ) : Q R k x y z = (1 + k) * z^2 - 2 * R * z + x^2 + y^2 := by
+  unfold Q; ring
+
+/-- the distance of a guarded ray ends on the surface -/
+theorem dist1_on_surface (g : Geom ℝ) (q : Ray ℝ) (hg : HitGuard g q) (p : Ray ℝ)
+    (hx : p.x = q.x + dist1 g q * q.L) (hy : p.y = q.y + dist1 g q * q.M)
+    (hz : p.z = q.z + dist1 g q * q.N) : OnSurface g p := by
+  cases g with
+  | plane =>
+    show p.z = 0
+    rw [hz]
+    exact plane_distance q hg.1 hg.2
+  | standard R k =>
+    show (1 + k) * p.z^2 - 2 * R * p.z + p.x^2 + p.y^2 = 0
+    rw [← Q_eq, hx, hy, hz]
+    rcases hg with h | h | h
+    · exact conic_root_on_surface R k q h.1 h.2.1 h.2.2.1 h.2.2.2
+    · exact conic_linear_root_on_surface R k q h.1 h.2
+    · exact conic_one_root_on_surface R k q h.1 h.2.1 h.2.2
+  | evenAsphere R k tol mi c => exact absurd hg id
+  | polynomial R k tol mi c => exact absurd hg id
+  | chebyshev R k tol mi c nx ny => exact absurd hg id
+
+theorem traceRay_on_surface (s : RSurf ℝ) (w : ℝ) (r : Ray ℝ)
+    (hg : HitGuard s.geom (s.cs.localize r)) : OnSurface s.geom (s.cs.localize (traceRay s w r)) := by
+  have hp := stepRay_pos s w (s.cs.localize r) (dist1 s.geom (s.cs.localize r))
+  exact dist1_on_surface s.geom (s.cs.localize r) hg _ hp.1 hp.2.1 hp.2.2
+
+/-- **traceSurf_point_on_surface**: for every surface with a plane or standard-conic geometry, in any
+coordinate system (decentre, tilts), every recorded point — taken back to the surface frame by
+`cs.localize` — satisfies the implicit equation of the prescribed shape: `z = 0`, resp.
+`(1+k) z² − 2 R z + x² + y² = 0`; provided each ray of the batch meets the guards. -/
+theorem traceSurf_point_on_surface (s : RSurf ℝ) (w : ℝ) (rays : List (Ray ℝ)) (hk : s.kind ≠ .object)
+    (hgeom : IsStd s.geom) (hg : ∀ r ∈ rays, HitGuard s.geom (s.cs.localize r)) :
+    ∀ r' ∈ traceSurf s w rays, OnSurface s.geom (s.cs.localize r') := by
+  intro r' hr'
+  rw [traceSurf_map s w rays hk hgeom] at hr'
+  obtain ⟨r, hr, rfl⟩ := List.mem_map.mp hr'
+  exact traceRay_on_surface s w r (hg r hr)
+
+/-! ### 2. the recorded direction is a unit vector -/
+
+/-- the normalisation of the Newton–Raphson geometries gives a unit vector, whatever the slopes -/
+theorem nrNormalize_unit (a b : ℝ) :
+    (nrNormalize a b).1^2 + (nrNormalize a b).2.1^2 + (nrNormalize a b).2.2^2 = 1 := by
+  simp only [nrNormalize]
+  num_real
+  have hpos : 0 < a*a + b*b + 1 := by nlinarith [mul_self_nonneg a, mul_self_nonneg b]
+  set m := Real.sqrt (a*a + b*b + 1) with hm
+  have hm0 : 0 < m := Real.sqrt_pos.mpr hpos
+  have hmm : m^2 = a*a + b*b + 1 := Real.sq_sqrt hpos.le
+  have hne : m ≠ 0 := ne_of_gt hm0
+  field_simp
+  linear_combination -hmm
+
+/-- **normal_unit**: the normal `geometry.surface_normal` returns is a unit vector — for every
+geometry of the model and every point (also outside the domain of the sag). -/
+theorem normal_unit (g : Geom ℝ) (q : Ray ℝ) :
+    (g.normal q).1^2 + (g.normal q).2.1^2 + (g.normal q).2.2^2 = 1 := by
+  cases g with
+  | plane =>
+    simp only [Geom.normal]
+    num_real
+    norm_num
+  | standard R k => exact (stdNormal_unit R k q.x q.y).1
+  | evenAsphere R k tol mi c => exact nrNormalize_unit _ _
+  | polynomial R k tol mi c => exact nrNormalize_unit _ _
+  | chebyshev R k tol mi c nx ny => exact nrNormalize_unit _ _
+
+/-- the normal depends on the transverse position only -/
+theorem normal_congr (g : Geom ℝ) (p q : Ray ℝ) (hx : p.x = q.x) (hy : p.y = q.y) :
+    g.normal p = g.normal q := by
+  cases g <;> simp only [Geom.normal, hx, hy]
+
+/-- the incidence conditions under which the refraction formula returns a unit vector: the
+surface is the image surface (no interaction) or a mirror, or the ray arriving at the surface
+(`q`, in the surface frame, at the intersection point) is not grazing (`k·n ≠ 0`) and is not
+totally reflected (`0 ≤ 1 − (n₁/n₂)²(1 − (k·n)²)`).
+
+At exactly grazing incidence `np.sign(k·n) = 0` wipes the normal out and the code returns
+`(n₁/n₂)·k`, which is not a unit vector unless `n₁ = ±n₂` — hence the first conjunct (run on the
+implementation: `RealRays.refract` with `k = (0,0,1)`, `n = (1,0,0)`, `n₁ = 1`, `n₂ = 1.5` leaves
+`(L,M,N) = (0,0,0.667)`; a set of measure zero).  Below the radicand guard (total internal
+reflection) the implementation takes `sqrt` of a negative number and the direction becomes `nan`. -/
+def Refractable (s : RSurf ℝ) (q : Ray ℝ) : Prop :=
+  s.kind = .image ∨ s.refl = true ∨
+    (q.L * (s.geom.normal q).1 + q.M * (s.geom.normal q).2.1 + q.N * (s.geom.normal q).2.2 ≠ 0 ∧
+     0 ≤ radicand q (s.geom.normal q).1 (s.geom.normal q).2.1 (s.geom.normal q).2.2 s.n1 s.n2)
+
+theorem arriveAt_dir2 (s : RSurf ℝ) (w : ℝ) (q : Ray ℝ) (t : ℝ) : dir2 (arriveAt s w q t) = dir2 q := by
+  unfold dir2; rw [arriveAt_L, arriveAt_M, arriveAt_N]
+
+/-- one ray through one surface, any geometry, any distance `t` -/
+theorem stepRay_unit (s : RSurf ℝ) (w : ℝ) (q : Ray ℝ) (t : ℝ) (hu : dir2 q = 1)
+    (hg : Refractable s (arriveAt s w q t)) : dir2 (stepRay s w q t) = 1 := by
+  unfold stepRay
+  rw [globalize_unit]
+  obtain ⟨A, hA⟩ : ∃ A, A = arriveAt s w q t := ⟨_, rfl⟩
+  rw [← hA] at hg ⊢
+  have hAu : A.L^2 + A.M^2 + A.N^2 = 1 := by
+    have := arriveAt_dir2 s w q t
+    rw [← hA, hu] at this; exact this
+  by_cases hk : s.kind = .image
+  · rw [interact_image s A hk]; exact hAu
+  · have hb : dir2 (interact s A) = dir2 (bend s A) := by
+      unfold dir2; rw [interact_L s A hk, interact_M s A hk, interact_N s A hk]
+    rw [hb]
+    have hn := normal_unit s.geom A
+    rcases hg with h | h | h
+    · exact absurd h hk
+    · unfold bend; rw [if_pos h]
+      exact reflect_unit A _ _ _ hAu hn
+    · unfold bend
+      by_cases hr : s.refl = true
+      · rw [if_pos hr]; exact reflect_unit A _ _ _ hAu hn
+      · rw [if_neg hr]; exact refract_unit A _ _ _ s.n1 s.n2 hAu hn h.1 h.2
+
+theorem traceRay_unit (s : RSurf ℝ) (w : ℝ) (r : Ray ℝ) (hu : dir2 r = 1)
+    (hg : Refractable s (arrive s w r)) : dir2 (traceRay s w r) = 1 :=
+  stepRay_unit s w (s.cs.localize r) (dist1 s.geom (s.cs.localize r))
+    (by rw [localize_unit]; exact hu) hg
+
+/-- **traceSurf_direction_unit**: unit directions in, no grazing incidence and no total internal
+reflection at the computed intersection point ⇒ every recorded (global) direction is a unit
+vector.  (Plane or standard conic, any coordinate system; the normal needs no hypothesis:
+`normal_unit`.) -/
+theorem traceSurf_direction_unit (s : RSurf ℝ) (w : ℝ) (rays : List (Ray ℝ)) (hk : s.kind ≠ .object)
+    (hgeom : IsStd s.geom) (hu : ∀ r ∈ rays, dir2 r = 1)
+    (hg : ∀ r ∈ rays, Refractable s (arrive s w r)) :
+    ∀ r' ∈ traceSurf s w rays, dir2 r' = 1 := by
+  intro r' hr'
+  rw [traceSurf_map s w rays hk hgeom] at hr'
+  obtain ⟨r, hr, rfl⟩ := List.mem_map.mp hr'
+  exact traceRay_unit s w r (hu r hr) (hg r hr)
+
+
+/-- **traceSurf_direction_unit_any_geometry**: the same for every geometry of the model (also the
+Newton–Raphson families, whose distances come out of a batch-wide iteration): the incidence guards
+are stated position by position for each ray and *its* distance. -/
+theorem traceSurf_direction_unit_any_geometry (s : RSurf ℝ) (w : ℝ) (rays : List (Ray ℝ))
+    (hk : s.kind ≠ .object) (hu : ∀ r ∈ rays, dir2 r = 1)
+    (hg : List.Forall₂ (fun r t => Refractable s (arriveAt s w (s.cs.localize r) t)) rays
+      (s.geom.distance (rays.map s.cs.localize))) :
+    ∀ r' ∈ traceSurf s w rays, dir2 r' = 1 := by
+  rw [traceSurf_body s w rays hk]
+  generalize s.geom.distance (rays.map s.cs.localize) = ts at hg
+  induction hg with
+  | nil => intro r' hr'; simp at hr'
+  | @cons a t l ts hat _ ih =>
+    intro r' hr'
+    simp only [List.map_cons, List.zip_cons_cons, List.mem_cons] at hr'
+    rcases hr' with e | e
+    · rw [e]
+      exact stepRay_unit s w (s.cs.localize a) t (by rw [localize_unit]; exact hu a (by simp)) hat
+    · exact ih (fun r hr => hu r (by simp [hr])) r' e
+
+/-- **traceSurf_mirror_direction_unit**: a mirror of any geometry, in any frame, returns unit
+directions for unit directions — no guard on the rays at all. -/
+theorem traceSurf_mirror_direction_unit (s : RSurf ℝ) (w : ℝ) (rays : List (Ray ℝ))
+    (hk : s.kind ≠ .object) (hr : s.refl = true) (hu : ∀ r ∈ rays, dir2 r = 1) :
+    ∀ r' ∈ traceSurf s w rays, dir2 r' = 1 :=
+  traceSurf_direction_unit_any_geometry s w rays hk hu
+    (forall₂_of_length _ (fun _ _ => Or.inr (Or.inl hr)) _ _
+      (by rw [distance_length, List.length_map]))
+
+/-! ### 3. Snell's law / the law of reflection at the recorded point -/
+
+/-- the refracted direction is a combination of the incident direction and the normal: the three
+are coplanar (`t · (k × N) = 0`), for any normal and any indices -/
+theorem refract_coplanar (r : Ray ℝ) (nx ny nz n1 n2 : ℝ) :
+    let o := r.refract nx ny nz n1 n2
+    o.L*(r.M*nz - r.N*ny) + o.M*(r.N*nx - r.L*nz) + o.N*(r.L*ny - r.M*nx) = 0 := by
+  intro o
+  simp only [o]
+  unfold Ray.refract alignNormal
+  num_real
+  ring
+
+theorem reflect_coplanar (r : Ray ℝ) (nx ny nz : ℝ) :
+    let o := r.reflect nx ny nz
+    o.L*(r.M*nz - r.N*ny) + o.M*(r.N*nx - r.L*nz) + o.N*(r.L*ny - r.M*nx) = 0 := by
+  intro o
+  simp only [o]
+  unfold Ray.reflect alignNormal
+  num_real
+  ring
+
+/-- the ray `interact` works on, and the facts every law below starts from: the recorded ray in
+the surface frame is `interact s A`, its direction is that of `bend s A`, `A` has the direction of
+the incoming ray and the normal at the recorded point is the normal `interact` used -/
+theorem stepRay_anatomy (s : RSurf ℝ) (w : ℝ) (q : Ray ℝ) (t : ℝ) (hk : s.kind ≠ .image) :
+    ∃ A : Ray ℝ, A.L = q.L ∧ A.M = q.M ∧ A.N = q.N ∧
+      s.geom.normal (s.cs.localize (stepRay s w q t)) = s.geom.normal A ∧
+      (s.cs.localize (stepRay s w q t)).L = (bend s A).L ∧
+      (s.cs.localize (stepRay s w q t)).M = (bend s A).M ∧
+      (s.cs.localize (stepRay s w q t)).N = (bend s A).N ∧ A = arriveAt s w q t := by
+  refine ⟨arriveAt s w q t, arriveAt_L s w q t, arriveAt_M s w q t, arriveAt_N s w q t, ?_, ?_, ?_, ?_, rfl⟩
+  · exact normal_congr _ _ _ (by rw [stepRay_local, interact_x]) (by rw [stepRay_local, interact_y])
+  · rw [stepRay_local, interact_L s _ hk]
+  · rw [stepRay_local, interact_M s _ hk]
+  · rw [stepRay_local, interact_N s _ hk]
+
+/-- one ray through one refracting surface (any geometry, any distance): with `d` the incoming
+direction, `d'` the recorded direction — both in the surface frame — and `n` the model's normal at
+the recorded point: `n₂ (d' × n) = n₁ (d × n)` and `d' · (d × n) = 0`. -/
+theorem stepRay_snell (s : RSurf ℝ) (w : ℝ) (q : Ray ℝ) (t : ℝ) (hk : s.kind ≠ .image)
+    (hr : s.refl = false) (hn2 : s.n2 ≠ 0) :
+    let o := s.cs.localize (stepRay s w q t)
+    let n := s.geom.normal o
+    s.n2*(o.M*n.2.2 - o.N*n.2.1) = s.n1*(q.M*n.2.2 - q.N*n.2.1) ∧
+    s.n2*(o.N*n.1 - o.L*n.2.2) = s.n1*(q.N*n.1 - q.L*n.2.2) ∧
+    s.n2*(o.L*n.2.1 - o.M*n.1) = s.n1*(q.L*n.2.1 - q.M*n.1) ∧
+    o.L*(q.M*n.2.2 - q.N*n.2.1) + o.M*(q.N*n.1 - q.L*n.2.2) + o.N*(q.L*n.2.1 - q.M*n.1) = 0 := by
+  intro o n
+  obtain ⟨A, hL, hM, hN, hn, hoL, hoM, hoN, -⟩ := stepRay_anatomy s w q t hk
+  have hb : bend s A = A.refract (s.geom.normal A).1 (s.geom.normal A).2.1 (s.geom.normal A).2.2 s.n1 s.n2 := by
+    unfold bend; rw [hr]; rfl
+  have h1 := refract_snell A (s.geom.normal A).1 (s.geom.normal A).2.1 (s.geom.normal A).2.2 s.n1 s.n2 hn2
+  have h2 := refract_coplanar A (s.geom.normal A).1 (s.geom.normal A).2.1 (s.geom.normal A).2.2 s.n1 s.n2
+  simp only [← hb] at h1 h2
+  simp only [← hoL, ← hoM, ← hoN] at h1 h2
+  simp only [← hn, hL, hM, hN] at h1 h2
+  exact ⟨h1.1, h1.2.1, h1.2.2, h2⟩
+
+/-- one ray off one mirror: `d' × n = d × n`, `d' · n = −(d · n)`, `d' · (d × n) = 0`. -/
+theorem stepRay_reflection (s : RSurf ℝ) (w : ℝ) (q : Ray ℝ) (t : ℝ) (hk : s.kind ≠ .image)
+    (hr : s.refl = true) :
+    let o := s.cs.localize (stepRay s w q t)
+    let n := s.geom.normal o
+    (o.M*n.2.2 - o.N*n.2.1 = q.M*n.2.2 - q.N*n.2.1) ∧
+    (o.N*n.1 - o.L*n.2.2 = q.N*n.1 - q.L*n.2.2) ∧
+    (o.L*n.2.1 - o.M*n.1 = q.L*n.2.1 - q.M*n.1) ∧
+    (o.L*n.1 + o.M*n.2.1 + o.N*n.2.2 = -(q.L*n.1 + q.M*n.2.1 + q.N*n.2.2)) ∧
+    o.L*(q.M*n.2.2 - q.N*n.2.1) + o.M*(q.N*n.1 - q.L*n.2.2) + o.N*(q.L*n.2.1 - q.M*n.1) = 0 := by
+  intro o n
+  obtain ⟨A, hL, hM, hN, hn, hoL, hoM, hoN, -⟩ := stepRay_anatomy s w q t hk
+  have hb : bend s A = A.reflect (s.geom.normal A).1 (s.geom.normal A).2.1 (s.geom.normal A).2.2 := by
+    unfold bend; rw [hr]; rfl
+  have h1 := reflect_law A (s.geom.normal A).1 (s.geom.normal A).2.1 (s.geom.normal A).2.2
+    (normal_unit s.geom A)
+  have h2 := reflect_coplanar A (s.geom.normal A).1 (s.geom.normal A).2.1 (s.geom.normal A).2.2
+  simp only [← hb] at h1 h2
+  simp only [← hoL, ← hoM, ← hoN] at h1 h2
+  simp only [← hn, hL, hM, hN] at h1 h2
+  exact ⟨h1.1, h1.2.1, h1.2.2.1, h1.2.2.2, h2⟩
+
+/-- what the optics demands of one surface for one ray: `r` the ray in front of the surface, `r'`
+the record, both global; stated in the surface frame with the model's normal at the recorded point -/
+def ObeysLaw (s : RSurf ℝ) (r r' : Ray ℝ) : Prop :=
+  let d := s.cs.localize r
+  let o := s.cs.localize r'
+  let n := s.geom.normal o
+  (o.L*(d.M*n.2.2 - d.N*n.2.1) + o.M*(d.N*n.1 - d.L*n.2.2) + o.N*(d.L*n.2.1 - d.M*n.1) = 0) ∧
+  if s.refl then
+    (o.M*n.2.2 - o.N*n.2.1 = d.M*n.2.2 - d.N*n.2.1) ∧ (o.N*n.1 - o.L*n.2.2 = d.N*n.1 - d.L*n.2.2) ∧
+    (o.L*n.2.1 - o.M*n.1 = d.L*n.2.1 - d.M*n.1) ∧
+    (o.L*n.1 + o.M*n.2.1 + o.N*n.2.2 = -(d.L*n.1 + d.M*n.2.1 + d.N*n.2.2))
+  else
+    s.n2*(o.M*n.2.2 - o.N*n.2.1) = s.n1*(d.M*n.2.2 - d.N*n.2.1) ∧
+    s.n2*(o.N*n.1 - o.L*n.2.2) = s.n1*(d.N*n.1 - d.L*n.2.2) ∧
+    s.n2*(o.L*n.2.1 - o.M*n.1) = s.n1*(d.L*n.2.1 - d.M*n.1)
+
+theorem stepRay_obeys (s : RSurf ℝ) (w : ℝ) (r : Ray ℝ) (t : ℝ) (hk : s.kind ≠ .image)
+    (hn2 : s.refl = false → s.n2 ≠ 0) : ObeysLaw s r (stepRay s w (s.cs.localize r) t) := by
+  unfold ObeysLaw
+  by_cases hr : s.refl = true
+  · have h := stepRay_reflection s w (s.cs.localize r) t hk hr
+    simp only [hr, if_true]
+    exact ⟨h.2.2.2.2, h.1, h.2.1, h.2.2.1, h.2.2.2.1⟩
+  · have hr' : s.refl = false := by simpa using hr
+    have h := stepRay_snell s w (s.cs.localize r) t hk hr' (hn2 hr')
+    simp only [hr', Bool.false_eq_true, if_false]
+    exact ⟨h.2.2.2, h.1, h.2.1, h.2.2.1⟩
+
+/-- **traceSurf_snell**: at every refracting or reflecting surface — *every* geometry of the model
+(plane, standard conic and the Newton–Raphson families: Snell's law does not care how the distance
+was found), any coordinate system — position by position in the batch: the recorded direction `d'`
+(taken back to the surface frame), the incoming direction `d` and the model's normal `n` at the
+recorded point are coplanar, and `n₂ (d' × n) = n₁ (d × n)` (vector form of Snell's law), resp. for
+a mirror `d' × n = d × n` and `d'·n = −(d·n)` (law of reflection).  No guard on the rays: the
+relation also holds for the junk directions of missed / totally reflected rays over ℝ.
+`n` is what `geometry.surface_normal` returns: that this is the true normal of the prescribed shape is
+proved for standard conics (`traceSurf_normal_is_true_normal`); for the Chebyshev family it is not
+(known finding F21: missing chain-rule factors) — there the law holds for the code's normal. -/
+theorem traceSurf_snell (s : RSurf ℝ) (w : ℝ) (rays : List (Ray ℝ)) (hk : s.kind = .standard)
+    (hn2 : s.refl = false → s.n2 ≠ 0) :
+    List.Forall₂ (ObeysLaw s) rays (traceSurf s w rays) := by
+  rw [traceSurf_body s w rays (by rw [hk]; decide)]
+  exact forall₂_zip_map (ObeysLaw s) s.cs.localize (fun rt => stepRay s w rt.1 rt.2) rays
+    (s.geom.distance (rays.map s.cs.localize)) (by rw [distance_length, List.length_map])
+    (fun r t => stepRay_obeys s w r t (by rw [hk]; decide) hn2)
+
+/-! ### 3b. … on the correct side -/
+
+/-- strict form of `Refractable` (needed to tell the two sides apart): not grazing, and at a
+refracting surface strictly below the critical angle -/
+def StrictlyRefractable (s : RSurf ℝ) (q : Ray ℝ) : Prop :=
+  q.L * (s.geom.normal q).1 + q.M * (s.geom.normal q).2.1 + q.N * (s.geom.normal q).2.2 ≠ 0 ∧
+  (s.refl = false →
+    0 < radicand q (s.geom.normal q).1 (s.geom.normal q).2.1 (s.geom.normal q).2.2 s.n1 s.n2)
+
+/-- the side of the surface the recorded ray continues on: the far side for a refracting surface
+(`(d'·n)(d·n) > 0`), the near side for a mirror (`(d'·n)(d·n) < 0`) -/
+def CorrectSide (s : RSurf ℝ) (r r' : Ray ℝ) : Prop :=
+  let d := s.cs.localize r
+  let o := s.cs.localize r'
+  let n := s.geom.normal o
+  if s.refl then (o.L*n.1 + o.M*n.2.1 + o.N*n.2.2) * (d.L*n.1 + d.M*n.2.1 + d.N*n.2.2) < 0
+  else 0 < (o.L*n.1 + o.M*n.2.1 + o.N*n.2.2) * (d.L*n.1 + d.M*n.2.1 + d.N*n.2.2)
+
+theorem stepRay_side (s : RSurf ℝ) (w : ℝ) (r : Ray ℝ) (t : ℝ) (hk : s.kind ≠ .image)
+    (hg : StrictlyRefractable s (arriveAt s w (s.cs.localize r) t)) :
+    CorrectSide s r (stepRay s w (s.cs.localize r) t) := by
+  unfold CorrectSide
+  obtain ⟨A, hL, hM, hN, hn, hoL, hoM, hoN, hA⟩ := stepRay_anatomy s w (s.cs.localize r) t hk
+  rw [← hA] at hg
+  obtain ⟨hd, hrad⟩ := hg
+  by_cases hr : s.refl = true
+  · have hb : bend s A = A.reflect (s.geom.normal A).1 (s.geom.normal A).2.1 (s.geom.normal A).2.2 := by
+      unfold bend; rw [hr]; rfl
+    have h1 := (reflect_law A (s.geom.normal A).1 (s.geom.normal A).2.1 (s.geom.normal A).2.2
+      (normal_unit s.geom A)).2.2.2
+    simp only [← hb] at h1
+    simp only [hr, if_true, hn, hoL, hoM, hoN, ← hL, ← hM, ← hN]
+    rw [h1]
+    have := mul_self_pos.mpr hd
+    linarith
+  · have hr' : s.refl = false := by simpa using hr
+    have hb : bend s A = A.refract (s.geom.normal A).1 (s.geom.normal A).2.1 (s.geom.normal A).2.2 s.n1 s.n2 := by
+      unfold bend; rw [hr']; rfl
+    have h1 := refract_halfspace A (s.geom.normal A).1 (s.geom.normal A).2.1 (s.geom.normal A).2.2 s.n1 s.n2
+      (normal_unit s.geom A) hd (hrad hr')
+    simp only [← hb] at h1
+    simp only [hr', Bool.false_eq_true, if_false, hn, hoL, hoM, hoN, ← hL, ← hM, ← hN]
+    exact h1
+
+/-- **traceSurf_correct_side**: the recorded ray leaves a refracting surface into the half-space the
+incident ray was heading for, and a mirror into the half-space it came from. -/
+theorem traceSurf_correct_side (s : RSurf ℝ) (w : ℝ) (rays : List (Ray ℝ)) (hk : s.kind = .standard)
+    (hgeom : IsStd s.geom) (hg : ∀ r ∈ rays, StrictlyRefractable s (arrive s w r)) :
+    List.Forall₂ (CorrectSide s) rays (traceSurf s w rays) := by
+  rw [traceSurf_map s w rays (by rw [hk]; decide) hgeom]
+  exact forall₂_map_self _ _ rays (fun r hr => stepRay_side s w r _ (by rw [hk]; decide) (hg r hr))
+
+/-! ### 3c. the normal used is the true normal of the prescribed shape at the recorded point -/
+
+/-- on the vertex sheet of the quadric (`R − (1+k)z` has the sign of `R`; this is the sheet the sag
+formula describes) the denominator of `conicSlope`, a function of `x, y` only, equals `R − (1+k)z`,
+i.e. `−½ ∂Q/∂z` -/
+theorem conic_denominator_on_quadric (R k x y z : ℝ) (hR : R ≠ 0) (hQ : Q R k x y z = 0)
+    (hsheet : 0 < (R - (1 + k)*z)/R) :
+    R * Real.sqrt (1 - (1 + k)*(x*x + y*y)/(R*R)) = R - (1 + k)*z := by
+  unfold Q at hQ
+  have e : 1 - (1 + k)*(x*x + y*y)/(R*R) = ((R - (1 + k)*z)/R)^2 := by
+    field_simp
+    linear_combination (-(1 + k)) * hQ
+  rw [e, Real.sqrt_sq hsheet.le]
+  field_simp
+
+/-- **stdNormal_is_true_normal**: at a point of the quadric on its vertex sheet the vector returned
+by `StandardGeometry.surface_normal` is parallel to the gradient `(x, y, (1+k)z − R) = ½∇Q` of the
+implicit equation (`n × ∇Q = 0`; it is a unit vector by `stdNormal_unit`). -/
+theorem stdNormal_is_true_normal (R k x y z : ℝ) (hR : R ≠ 0) (hQ : Q R k x y z = 0)
+    (hsheet : 0 < (R - (1 + k)*z)/R) :
+    let n := stdNormal R k x y
+    n.2.1 * ((1 + k)*z - R) - n.2.2 * y = 0 ∧ n.2.2 * x - n.1 * ((1 + k)*z - R) = 0 ∧
+    n.1 * y - n.2.1 * x = 0 := by
+  intro n
+  have hden := conic_denominator_on_quadric R k x y z hR hQ hsheet
+  have hne : R - (1 + k)*z ≠ 0 := by
+    intro h; rw [h, zero_div] at hsheet; exact lt_irrefl _ hsheet
+  simp only [n, stdNormal, conicSlope]
+  num_real
+  rw [hden]
+  set D := R - (1 + k)*z with hD
+  have hpos : 0 < x / D * (x / D) + y / D * (y / D) + -1 * -1 := by
+    nlinarith [mul_self_nonneg (x / D), mul_self_nonneg (y / D)]
+  have hm : Real.sqrt (x / D * (x / D) + y / D * (y / D) + -1 * -1) ≠ 0 :=
+    ne_of_gt (Real.sqrt_pos.mpr hpos)
+  set m := Real.sqrt (x / D * (x / D) + y / D * (y / D) + -1 * -1)
+  have hz : (1 + k)*z - R = -D := by rw [hD]; ring
+  rw [hz]
+  refine ⟨?_, ?_, ?_⟩ <;> field_simp <;> ring
+
+/-- **traceSurf_normal_is_true_normal**: at every recorded point of a standard-conic surface that
+lies on the vertex sheet, the normal with respect to which `traceSurf_snell` holds is the true
+normal of the prescribed shape (parallel to the gradient of its implicit equation).
+
+On the other sheet (`z` beyond the equator of an ellipsoid/sphere — only reachable when it carries
+the only admissible root) the code still evaluates the sag-sheet formula from `x, y` alone, and the
+transverse components of its normal have the wrong sign. -/
+theorem traceSurf_normal_is_true_normal (s : RSurf ℝ) (w : ℝ) (rays : List (Ray ℝ)) (R k : ℝ)
+    (hk : s.kind ≠ .object) (hgeom : s.geom = .standard R k) (hR : R ≠ 0)
+    (hg : ∀ r ∈ rays, HitGuard s.geom (s.cs.localize r)) :
+    ∀ r' ∈ traceSurf s w rays,
+      0 < (R - (1 + k) * (s.cs.localize r').z) / R →
+      let p := s.cs.localize r'
+      let n := s.geom.normal p
+      n.2.1 * ((1 + k)*p.z - R) - n.2.2 * p.y = 0 ∧ n.2.2 * p.x - n.1 * ((1 + k)*p.z - R) = 0 ∧
+      n.1 * p.y - n.2.1 * p.x = 0 := by
+  intro r' hr' hsheet p n
+  have hon := traceSurf_point_on_surface s w rays hk (by rw [hgeom]; trivial) hg r' hr'
+  rw [hgeom] at hon
+  have hQ : Q R k p.x p.y p.z = 0 := by rw [Q_eq]; exact hon
+  have := stdNormal_is_true_normal R k p.x p.y p.z hR hQ hsheet
+  simp only [n, hgeom]
+  exact this
+
+/-! ### 4. optical path, and all of it along the whole lens -/
+
+/-- optical path that surface `s` adds to the ray `r` (global, in front of the surface):
+`|t · n₁|` with `t` the distance `geometry.distance` returns; nothing at the object surface -/
+noncomputable def pathStep (s : RSurf ℝ) (r : Ray ℝ) : ℝ :=
+  match s.kind with
+  | .object => 0
+  | _ => |dist1 s.geom (s.cs.localize r) * s.n1|
+
+theorem traceRay_opd (s : RSurf ℝ) (w : ℝ) (r : Ray ℝ) :
+    (traceRay s w r).opd = r.opd + |dist1 s.geom (s.cs.localize r) * s.n1| := by
+  have := traceSurf_opd s w (s.cs.localize r) (dist1 s.geom (s.cs.localize r))
+  rw [localize_opd] at this
+  exact this
+
+/-- **traceSurf_opd_batch**: position by position, recorded path = incoming path + `|t·n₁|` -/
+theorem traceSurf_opd_batch (s : RSurf ℝ) (w : ℝ) (rays : List (Ray ℝ)) (hgeom : IsStd s.geom) :
+    List.Forall₂ (fun r r' => r'.opd = r.opd + pathStep s r) rays (traceSurf s w rays) := by
+  by_cases hk : s.kind = .object
+  · rw [traceSurf_object s w rays hk]
+    refine forall₂_self _ rays (fun r _ => ?_)
+    simp [pathStep, hk]
+  · rw [traceSurf_map s w rays hk hgeom]
+    refine forall₂_map_self _ _ rays (fun r _ => ?_)
+    rw [traceRay_opd]
+    unfold pathStep
+    cases h : s.kind with
+    | object => exact absurd h hk
+    | standard => rfl
+    | image => rfl
+
+/-- the guards of one surface for the batch it receives: nothing at the object surface (the
+batch passes unchanged); otherwise a plane or a standard conic, every ray meets the intersection
+guards and the incidence guards, and a refracting surface has `n₂ ≠ 0` -/
+def SurfGuard (s : RSurf ℝ) (w : ℝ) (rays : List (Ray ℝ)) : Prop :=
+  s.kind = .object ∨
+    (IsStd s.geom ∧ (s.refl = false → s.n2 ≠ 0) ∧
+      ∀ r ∈ rays, HitGuard s.geom (s.cs.localize r) ∧ Refractable s (arrive s w r))
+
+/-- every surface of the lens satisfies its guards *at the batch it receives* (the running batch is
+the record of the previous surface, as in `traceLens`) -/
+def Chain (w : ℝ) : List (RSurf ℝ) → List (Ray ℝ) → Prop
+  | [], _ => True
+  | s :: ss, rays => SurfGuard s w rays ∧ Chain w ss (traceSurf s w rays)
+
+/-- what C02 demands of one record `cur` of surface `s`, given the batch `prev` in front of it -/
+def RecordOK (s : RSurf ℝ) (prev cur : List (Ray ℝ)) : Prop :=
+  (∀ r' ∈ cur, dir2 r' = 1) ∧
+  (s.kind ≠ .object → ∀ r' ∈ cur, OnSurface s.geom (s.cs.localize r')) ∧
+  (s.kind = .standard → List.Forall₂ (ObeysLaw s) prev cur) ∧
+  List.Forall₂ (fun r r' => r'.opd = r.opd + pathStep s r) prev cur
+
+/-- `RecordOK` for every surface and its record, each against the record before it (the launch
+batch for the first); also says that there are as many records as surfaces -/
+def Invariants : List (RSurf ℝ) → List (Ray ℝ) → List (List (Ray ℝ)) → Prop
+  | [], _, [] => True
+  | s :: ss, prev, cur :: rest => RecordOK s prev cur ∧ Invariants ss cur rest
+  | _, _, _ => False
+
+/-- **traceSurf_invariants**: one surface, all four facts at once -/
+theorem traceSurf_invariants (s : RSurf ℝ) (w : ℝ) (rays : List (Ray ℝ)) (hg : SurfGuard s w rays)
+    (hu : ∀ r ∈ rays, dir2 r = 1) : RecordOK s rays (traceSurf s w rays) := by
+  rcases hg with hk | ⟨hgeom, hn2, hg⟩
+  · rw [traceSurf_object s w rays hk]
+    refine ⟨hu, fun h => absurd hk h, fun h => ?_, ?_⟩
+    · rw [hk] at h; exact absurd h (by decide)
+    · refine forall₂_self _ rays (fun r _ => ?_)
+      simp [pathStep, hk]
+  · by_cases hk : s.kind = .object
+    · rw [traceSurf_object s w rays hk]
+      refine ⟨hu, fun h => absurd hk h, fun h => ?_, ?_⟩
+      · rw [hk] at h; exact absurd h (by decide)
+      · refine forall₂_self _ rays (fun r _ => ?_)
+        simp [pathStep, hk]
+    · exact ⟨traceSurf_direction_unit s w rays hk hgeom hu (fun r hr => (hg r hr).2),
+        fun _ => traceSurf_point_on_surface s w rays hk hgeom (fun r hr => (hg r hr).1),
+        fun h => traceSurf_snell s w rays h hn2,
+        traceSurf_opd_batch s w rays hgeom⟩
+
+/-- **traceLens_invariants**: for every lens and every batch of unit-direction rays such that each
+surface meets its guards at the batch it receives, *every* record of `traceLens` has unit
+directions, lies on its surface (implicit equation in the surface frame), obeys Snell's law / the
+law of reflection with the model's normal at the recorded point, in the plane of incidence, and its
+optical path is that of the record before plus `|n₁ · t|`. -/
+theorem traceLens_invariants (w : ℝ) : ∀ (ss : List (RSurf ℝ)) (rays : List (Ray ℝ)),
+    Chain w ss rays → (∀ r ∈ rays, dir2 r = 1) → Invariants ss rays (traceLens w ss rays)
+  | [], _, _, _ => trivial
+  | s :: ss, rays, hc, hu => by
+    have h1 := traceSurf_invariants s w rays hc.1 hu
+    exact ⟨h1, traceLens_invariants w ss _ hc.2 h1.1⟩
+
+/-- corollary in the form of `AllUnit`: every ray of every record has a unit direction -/
+theorem traceLens_all_unit (w : ℝ) : ∀ (ss : List (RSurf ℝ)) (rays : List (Ray ℝ)),
+    Chain w ss rays → (∀ r ∈ rays, dir2 r = 1) → AllUnit (traceLens w ss rays)
+  | [], _, _, _ => by simp [AllUnit, traceLens]
+  | s :: ss, rays, hc, hu => by
+    have h1 := traceSurf_invariants s w rays hc.1 hu
+    have ih := traceLens_all_unit w ss _ hc.2 h1.1
+    intro rs hrs
+    simp only [traceLens, List.mem_cons] at hrs
+    rcases hrs with e | e
+    · rw [e]; exact h1.1
+    · exact ih rs e
+
+/-- corollary, indexed: the `i`-th record lies on the `i`-th surface -/
+theorem traceLens_on_surface (w : ℝ) : ∀ (ss : List (RSurf ℝ)) (rays : List (Ray ℝ)),
+    Chain w ss rays → (∀ r ∈ rays, dir2 r = 1) →
+    ∀ (i : Nat) (s : RSurf ℝ) (recs : List (Ray ℝ)), ss[i]? = some s → (traceLens w ss rays)[i]? = some recs →
+      s.kind ≠ .object → ∀ r' ∈ recs, OnSurface s.geom (s.cs.localize r')
+  | [], _, _, _, i, s, recs, hs, _ => by simp at hs
+  | s0 :: ss, rays, hc, hu, 0, s, recs, hs, hr => by
+    have h1 := traceSurf_invariants s0 w rays hc.1 hu
+    simp only [List.getElem?_cons_zero, Option.some.injEq] at hs
+    simp only [traceLens, List.getElem?_cons_zero, Option.some.injEq] at hr
+    rw [← hs, ← hr]; exact h1.2.1
+  | s0 :: ss, rays, hc, hu, i+1, s, recs, hs, hr => by
+    have h1 := traceSurf_invariants s0 w rays hc.1 hu
+    simp only [List.getElem?_cons_succ] at hs
+    simp only [traceLens, List.getElem?_cons_succ] at hr
+    exact traceLens_on_surface w ss _ hc.2 h1.1 i s recs hs hr
+
+/-! ### 4b. the distance `t` *is* the geometric path between consecutive records -/
+
+/-- squared Euclidean distance between the positions of two rays -/
+def pdist2 (a b : Ray ℝ) : ℝ := (a.x - b.x)^2 + (a.y - b.y)^2 + (a.z - b.z)^2
+
+theorem rotateX_pdist2 (a b : Ray ℝ) (t : ℝ) : pdist2 (a.rotateX t) (b.rotateX t) = pdist2 a b := by
+  unfold pdist2 Ray.rotateX; num_real
+  linear_combination ((a.y - b.y)^2 + (a.z - b.z)^2) * Real.sin_sq_add_cos_sq t
+theorem rotateY_pdist2 (a b : Ray ℝ) (t : ℝ) : pdist2 (a.rotateY t) (b.rotateY t) = pdist2 a b := by
+  unfold pdist2 Ray.rotateY; num_real
+  linear_combination ((a.x - b.x)^2 + (a.z - b.z)^2) * Real.sin_sq_add_cos_sq t
+theorem rotateZ_pdist2 (a b : Ray ℝ) (t : ℝ) : pdist2 (a.rotateZ t) (b.rotateZ t) = pdist2 a b := by
+  unfold pdist2 Ray.rotateZ; num_real
+  linear_combination ((a.x - b.x)^2 + (a.y - b.y)^2) * Real.sin_sq_add_cos_sq t
+theorem translate_pdist2 (a b : Ray ℝ) (x y z : ℝ) :
+    pdist2 (a.translate x y z) (b.translate x y z) = pdist2 a b := by
+  unfold pdist2 Ray.translate; num_real; ring
+
+/-- frame changes are isometries of the positions too -/
+theorem localize_pdist2 (c : Cs ℝ) (a b : Ray ℝ) : pdist2 (c.localize a) (c.localize b) = pdist2 a b := by
+  unfold Cs.localize
+  by_cases hx : truthy c.rx = true <;> by_cases hy : truthy c.ry = true <;>
+    by_cases hz : truthy c.rz = true <;>
+    simp [hx, hy, hz, rotateX_pdist2, rotateY_pdist2, rotateZ_pdist2, translate_pdist2]
+
+/-- one ray, one surface, any geometry and distance: the recorded point is `|t|` away from the
+point the ray came from (global coordinates), for a unit direction -/
+theorem stepRay_geometric_path (s : RSurf ℝ) (w : ℝ) (r : Ray ℝ) (t : ℝ) (hu : dir2 r = 1) :
+    pdist2 r (stepRay s w (s.cs.localize r) t) = t^2 := by
+  rw [← localize_pdist2 s.cs]
+  have hp := stepRay_pos s w (s.cs.localize r) t
+  have hq : dir2 (s.cs.localize r) = 1 := by rw [localize_unit]; exact hu
+  unfold pdist2
+  rw [hp.1, hp.2.1, hp.2.2]
+  unfold dir2 at hq
+  linear_combination t^2 * hq
+
+/-- **traceSurf_opd_is_index_times_path**: position by position, the *square* of the optical path
+added by the surface is `n₁²` times the squared Euclidean distance between the incoming ray's point
+and the recorded point — the model's `|t·n₁|` is index × geometric path (in absolute value). -/
+theorem traceSurf_opd_is_index_times_path (s : RSurf ℝ) (w : ℝ) (rays : List (Ray ℝ))
+    (hk : s.kind ≠ .object) (hgeom : IsStd s.geom) (hu : ∀ r ∈ rays, dir2 r = 1) :
+    List.Forall₂ (fun r r' => (r'.opd - r.opd)^2 = s.n1^2 * pdist2 r r') rays (traceSurf s w rays) := by
+  rw [traceSurf_map s w rays hk hgeom]
+  refine forall₂_map_self _ _ rays (fun r hr => ?_)
+  have h1 := traceRay_opd s w r
+  have h2 : pdist2 r (traceRay s w r) = (dist1 s.geom (s.cs.localize r))^2 :=
+    stepRay_geometric_path s w r _ (hu r hr)
+  rw [h2, h1, add_sub_cancel_left, sq_abs]
+  ring
+
+/-! ### 5. what is *not* stated here
+
+"Rays that miss the surface or undergo total internal reflection become non-finite and never become
+finite again" is a statement about NaN/inf propagation in IEEE arithmetic (`sqrt` of a negative
+radicand, `t[t<0] = inf`, `nan` from `Plane.distance`).  The carrier ℝ has no non-finite values
+(`Real.sqrt` of a negative number is 0, `Num.inf` is the junk value 0), so the statement cannot even
+be formulated over ℝ; it is covered by the Float model in the correspondence/property runs of the
+harness, not by a theorem.  All theorems above therefore carry the guards (`HitGuard`,
+`Refractable`) that keep every intermediate value finite. -/
+
+/-! ### non-vacuity of the whole-surface / whole-lens theorems
+
+A concrete lens: object surface, a decentred spherical surface `R = 5` (vertex at `(0,1,10)`) from
+water (`n = 4/3`) into air, image plane at `z = 35`; one ray parallel to the axis at height 4.  In the
+frame of the sphere it starts at `(0,3,−1)`, meets the sphere at `t = 2` in `(0,3,1)` (the other root
+is `t = 10`), the normal there is `(0, 3/5, −4/5)`, `sin θ = 3/5`, `sin θ' = 4/5`, the refracted
+direction is `(0, 7/25, 24/25)` and the image plane is met after `t = 25`. -/
+
+noncomputable def exObj : RSurf ℝ := ⟨.object, ⟨0, 0, 0, 0, 0, 0⟩, .plane, 1, 4/3, 0, false, none, none⟩
+noncomputable def exSurf : RSurf ℝ :=
+  ⟨.standard, ⟨0, 1, 10, 0, 0, 0⟩, .standard 5 0, 4/3, 1, 0, false, none, none⟩
+noncomputable def exImg : RSurf ℝ := ⟨.image, ⟨0, 0, 35, 0, 0, 0⟩, .plane, 1, 1, 0, false, none, none⟩
+noncomputable def exRay : Ray ℝ := ⟨0, 4, 9, 0, 0, 1, 1, 0⟩
+noncomputable def exLocal : Ray ℝ := ⟨0, 3, -1, 0, 0, 1, 1, 0⟩
+
+theorem ex_localize : exSurf.cs.localize exRay = exLocal := by
+  simp only [exSurf, exRay, exLocal, Cs.localize, truthy, Ray.translate]
+  num_real
+  have h0 : Num.isZero (0:ℝ) = true := by rw [NumReal.isZero_eq]
+  norm_num [h0]
+
+theorem ex_sqrt64 : Real.sqrt 64 = 8 := by
+  rw [show (64:ℝ) = 8^2 by norm_num]; exact Real.sqrt_sq (by norm_num)
+theorem ex_sqrt_16_25 : Real.sqrt (16/25) = 4/5 := by
+  rw [show (16/25:ℝ) = (4/5)^2 by norm_num]; exact Real.sqrt_sq (by norm_num)
+theorem ex_sqrt_25_16 : Real.sqrt (25/16) = 5/4 := by
+  rw [show (25/16:ℝ) = (5/4)^2 by norm_num]; exact Real.sqrt_sq (by norm_num)
+theorem ex_sqrt_9_25 : Real.sqrt (9/25) = 3/5 := by
+  rw [show (9/25:ℝ) = (3/5)^2 by norm_num]; exact Real.sqrt_sq (by norm_num)
+
+theorem ex_abc : conicABC 5 0 exLocal = (1, -12, 20) := by
+  rw [conicABC_eq]; simp only [exLocal]; norm_num
+
+theorem ex_disc : disc 5 0 exLocal = 64 := by
+  unfold disc; rw [ex_abc]; norm_num
+
+theorem ex_dist : stdDistance 5 0 exLocal = 2 := by
+  simp only [stdDistance, selectRoot, maskNeg, ex_abc]
+  num_real
+  simp only [exLocal]
+  norm_num [ex_sqrt64]
+
+theorem ex_hit : HitGuard exSurf.geom (exSurf.cs.localize exRay) := by
+  rw [ex_localize]
+  show QuadBranch 5 0 exLocal ∨ _
+  left
+  unfold QuadBranch
+  rw [ex_disc, ex_abc, ex_sqrt64]
+  norm_num
+
+theorem ex_normal : stdNormal (5:ℝ) 0 0 3 = (0, 3/5, -(4/5)) := by
+  simp only [stdNormal, conicSlope]
+  num_real
+  have e1 : (1:ℝ) - (1 + 0) * (0 * 0 + 3 * 3) / (5 * 5) = 16/25 := by norm_num
+  rw [e1, ex_sqrt_16_25]
+  have e2 : (0:ℝ) / (5 * (4 / 5)) * (0 / (5 * (4 / 5))) + 3 / (5 * (4 / 5)) * (3 / (5 * (4 / 5))) + -1 * -1
+      = 25/16 := by norm_num
+  rw [e2, ex_sqrt_25_16]
+  norm_num
+
+/-- the ray on arrival at the sphere, in its frame: at `(0,3,1)`, still along `z`, path `2·4/3` -/
+theorem ex_arrive (w : ℝ) : (arrive exSurf w exRay).x = 0 ∧ (arrive exSurf w exRay).y = 3 ∧
+    (arrive exSurf w exRay).z = 1 ∧ (arrive exSurf w exRay).L = 0 ∧ (arrive exSurf w exRay).M = 0 ∧
+    (arrive exSurf w exRay).N = 1 ∧ (arrive exSurf w exRay).opd = 8/3 := by
+  unfold arrive
+  rw [arriveAt_x, arriveAt_y, arriveAt_z, arriveAt_L, arriveAt_M, arriveAt_N, arriveAt_opd, ex_localize]
+  have hd : dist1 exSurf.geom exLocal = 2 := ex_dist
+  rw [hd]
+  simp only [exLocal, exSurf]
+  norm_num
+
+theorem ex_arrive_normal (w : ℝ) : exSurf.geom.normal (arrive exSurf w exRay) = (0, 3/5, -(4/5)) := by
+  have h := ex_arrive w
+  show stdNormal 5 0 (arrive exSurf w exRay).x (arrive exSurf w exRay).y = _
+  rw [h.1, h.2.1, ex_normal]
+
+theorem ex_refractable (w : ℝ) : Refractable exSurf (arrive exSurf w exRay) := by
+  right; right
+  have h := ex_arrive w
+  rw [ex_arrive_normal]
+  unfold radicand
+  rw [h.2.2.2.1, h.2.2.2.2.1, h.2.2.2.2.2.1]
+  simp only [exSurf]
+  norm_num
+
+theorem ex_strictly_refractable (w : ℝ) : StrictlyRefractable exSurf (arrive exSurf w exRay) := by
+  have h := ex_arrive w
+  unfold StrictlyRefractable
+  rw [ex_arrive_normal]
+  unfold radicand
+  rw [h.2.2.2.1, h.2.2.2.2.1, h.2.2.2.2.2.1]
+  simp only [exSurf]
+  norm_num
+
+
+theorem ex_globalize (q : Ray ℝ) : exSurf.cs.globalize q = q.translate 0 1 10 := by
+  have h0 : Num.isZero (0:ℝ) = true := by rw [NumReal.isZero_eq]
+  simp [exSurf, Cs.globalize, truthy, h0]
+
+/-- the record behind the sphere (global): at `(0,4,11)`, direction `(0, 7/25, 24/25)` -/
+theorem ex_record (w : ℝ) : (traceRay exSurf w exRay).x = 0 ∧ (traceRay exSurf w exRay).y = 4 ∧
+    (traceRay exSurf w exRay).z = 11 ∧ (traceRay exSurf w exRay).L = 0 ∧
+    (traceRay exSurf w exRay).M = 7/25 ∧ (traceRay exSurf w exRay).N = 24/25 := by
+  have h := ex_arrive w
+  have hn := ex_arrive_normal w
+  have hk : exSurf.kind ≠ .image := by simp [exSurf]
+  have hb : bend exSurf (arrive exSurf w exRay) =
+      (arrive exSurf w exRay).refract 0 (3/5) (-(4/5)) (4/3) 1 := by
+    unfold bend; rw [hn]; simp [exSurf]
+  unfold traceRay
+  rw [ex_globalize]
+  simp only [Ray.translate]
+  num_real
+  rw [interact_x, interact_y, interact_z, interact_L _ _ hk, interact_M _ _ hk, interact_N _ _ hk, hb,
+    h.1, h.2.1, h.2.2.1]
+  simp only [Ray.refract, alignNormal, Num.sign]
+  num_real
+  rw [h.2.2.2.1, h.2.2.2.2.1, h.2.2.2.2.2.1]
+  have e : (1:ℝ) - 4 / 3 / 1 * (4 / 3 / 1) * (1 - |0 * 0 + 0 * (3 / 5) + 1 * -(4 / 5)| * |0 * 0 + 0 * (3 / 5) + 1 * -(4 / 5)|) = 9/25 := by
+    norm_num [abs_of_neg]
+  rw [e, ex_sqrt_9_25]
+  norm_num [abs_of_neg]
+
+
+theorem ex_isStd : IsStd exSurf.geom := by simp [exSurf, IsStd]
+theorem ex_kind : exSurf.kind = .standard := rfl
+
+theorem ex_traceSurf (w : ℝ) : traceSurf exSurf w [exRay] = [traceRay exSurf w exRay] := by
+  rw [traceSurf_map exSurf w _ (by rw [ex_kind]; decide) ex_isStd]; rfl
+
+/-- the record behind the sphere in the frame of the image plane: 24 in front of it, heading for it -/
+theorem ex_img_local (w : ℝ) : (exImg.cs.localize (traceRay exSurf w exRay)).z = -24 ∧
+    (exImg.cs.localize (traceRay exSurf w exRay)).N = 24/25 := by
+  have h0 : Num.isZero (0:ℝ) = true := by rw [NumReal.isZero_eq]
+  have h := ex_record w
+  simp only [exImg, Cs.localize, truthy, h0, Ray.translate]
+  num_real
+  simp only [Bool.not_true, Bool.false_eq_true, if_false]
+  rw [h.2.2.1, h.2.2.2.2.2]
+  norm_num
+
+theorem ex_chain (w : ℝ) : Chain w [exObj, exSurf, exImg] [exRay] := by
+  have hobj : traceSurf exObj w [exRay] = [exRay] := traceSurf_object _ _ _ rfl
+  refine ⟨Or.inl rfl, ?_, ?_, trivial⟩
+  · rw [hobj]
+    refine Or.inr ⟨ex_isStd, fun _ => by simp [exSurf], ?_⟩
+    intro r hr
+    rw [List.mem_singleton.mp hr]
+    exact ⟨ex_hit, ex_refractable w⟩
+  · rw [hobj, ex_traceSurf]
+    refine Or.inr ⟨by simp [exImg, IsStd], fun _ => by simp [exImg], ?_⟩
+    intro r hr
+    rw [List.mem_singleton.mp hr]
+    have h := ex_img_local w
+    refine ⟨?_, Or.inl rfl⟩
+    show (exImg.cs.localize (traceRay exSurf w exRay)).N ≠ 0 ∧
+      0 ≤ -(exImg.cs.localize (traceRay exSurf w exRay)).z / (exImg.cs.localize (traceRay exSurf w exRay)).N
+    rw [h.1, h.2]
+    norm_num
+
+theorem ex_unit : ∀ r ∈ [exRay], dir2 r = 1 := by
+  intro r hr
+  rw [List.mem_singleton.mp hr]
+  simp [dir2, exRay]
+
+/-- `traceSurf_point_on_surface` applies: the recorded point of the example is on the sphere -/
+example (w : ℝ) : ∀ r' ∈ traceSurf exSurf w [exRay], OnSurface exSurf.geom (exSurf.cs.localize r') :=
+  traceSurf_point_on_surface exSurf w [exRay] (by rw [ex_kind]; decide) ex_isStd
+    (fun r hr => by rw [List.mem_singleton.mp hr]; exact ex_hit)
+
+/-- … and the batch is not empty, the local point is `(0,3,1)`: `1·1² − 2·5·1 + 0² + 3² = 0` -/
+theorem ex_local_z (w : ℝ) : (exSurf.cs.localize (traceRay exSurf w exRay)).z = 1 := by
+  have := (stepRay_pos exSurf w (exSurf.cs.localize exRay) (dist1 exSurf.geom (exSurf.cs.localize exRay))).2.2
+  rw [ex_localize] at this
+  have hd : dist1 exSurf.geom exLocal = 2 := ex_dist
+  rw [hd] at this
+  rw [show traceRay exSurf w exRay = stepRay exSurf w (exSurf.cs.localize exRay)
+    (dist1 exSurf.geom (exSurf.cs.localize exRay)) from rfl, ex_localize, hd, this]
+  simp [exLocal]; norm_num
+
+/-- `traceSurf_normal_is_true_normal` applies, and its sheet condition holds at the recorded point -/
+example (w : ℝ) : ∀ r' ∈ traceSurf exSurf w [exRay],
+    0 < (5 - (1 + 0) * (exSurf.cs.localize r').z) / 5 →
+    let p := exSurf.cs.localize r'
+    let n := exSurf.geom.normal p
+    n.2.1 * ((1 + 0)*p.z - 5) - n.2.2 * p.y = 0 ∧ n.2.2 * p.x - n.1 * ((1 + 0)*p.z - 5) = 0 ∧
+    n.1 * p.y - n.2.1 * p.x = 0 :=
+  traceSurf_normal_is_true_normal exSurf w [exRay] 5 0 (by rw [ex_kind]; decide) rfl (by norm_num)
+    (fun r hr => by rw [List.mem_singleton.mp hr]; exact ex_hit)
+
+example (w : ℝ) : 0 < (5 - (1 + 0) * (exSurf.cs.localize (traceRay exSurf w exRay)).z) / 5 := by
+  rw [ex_local_z]; norm_num
+
+/-- `traceSurf_direction_unit` applies (and indeed `0² + (7/25)² + (24/25)² = 1`) -/
+example (w : ℝ) : ∀ r' ∈ traceSurf exSurf w [exRay], dir2 r' = 1 :=
+  traceSurf_direction_unit exSurf w [exRay] (by rw [ex_kind]; decide) ex_isStd ex_unit
+    (fun r hr => by rw [List.mem_singleton.mp hr]; exact ex_refractable w)
+
+/-- `traceSurf_direction_unit_any_geometry` / `traceSurf_mirror_direction_unit` apply: an aspheric
+mirror (Newton–Raphson geometry), two rays -/
+example (w : ℝ) : ∀ r' ∈ traceSurf
+    (⟨.standard, ⟨0, 0, 10, 1/10, 0, 0⟩, .evenAsphere (-20) (-1) (1/1000000) 10 [1/1000], 1, 1, 0, true,
+      none, none⟩ : RSurf ℝ) w [exRay, ⟨0, 0, 0, 3/5, 0, 4/5, 1, 0⟩], dir2 r' = 1 :=
+  traceSurf_mirror_direction_unit _ w _ (by decide) rfl (by
+    intro r hr
+    simp only [List.mem_cons, List.not_mem_nil, or_false] at hr
+    rcases hr with e | e <;> rw [e] <;> norm_num [dir2, exRay])
+
+/-- `traceSurf_snell` applies -/
+example (w : ℝ) : List.Forall₂ (ObeysLaw exSurf) [exRay] (traceSurf exSurf w [exRay]) :=
+  traceSurf_snell exSurf w [exRay] ex_kind (fun _ => by simp [exSurf])
+
+/-- `traceSurf_correct_side` applies -/
+example (w : ℝ) : List.Forall₂ (CorrectSide exSurf) [exRay] (traceSurf exSurf w [exRay]) :=
+  traceSurf_correct_side exSurf w [exRay] ex_kind ex_isStd
+    (fun r hr => by rw [List.mem_singleton.mp hr]; exact ex_strictly_refractable w)
+
+/-- `traceSurf_opd_is_index_times_path` applies -/
+example (w : ℝ) : List.Forall₂ (fun r r' => (r'.opd - r.opd)^2 = exSurf.n1^2 * pdist2 r r')
+    [exRay] (traceSurf exSurf w [exRay]) :=
+  traceSurf_opd_is_index_times_path exSurf w [exRay] (by rw [ex_kind]; decide) ex_isStd ex_unit
+
+/-- `traceLens_invariants` applies to the three-surface lens -/
+example (w : ℝ) : Invariants [exObj, exSurf, exImg] [exRay] (traceLens w [exObj, exSurf, exImg] [exRay]) :=
+  traceLens_invariants w _ _ (ex_chain w) ex_unit
+
+example (w : ℝ) : AllUnit (traceLens w [exObj, exSurf, exImg] [exRay]) :=
+  traceLens_all_unit w _ _ (ex_chain w) ex_unit
+
+/-- the mirror branch of the guards is satisfiable as well (no incidence condition at all) -/
+example (q : Ray ℝ) : Refractable { exSurf with refl := true } q := Or.inr (Or.inl rfl)
+
+/-- the one-root guard (concave surface `R = −5`; the ray starts inside the sphere at `z = −2`,
+roots `t = 1` and `t = −7`) -/
+example : HitGuard (.standard (-5) 0) (⟨0, 3, -2, 0, 0, 1, 1, 0⟩ : Ray ℝ) := by
+  have habc : conicABC (-5) 0 (⟨0, 3, -2, 0, 0, 1, 1, 0⟩ : Ray ℝ) = (1, 6, -7) := by
+    rw [conicABC_eq]; norm_num
+  have hd : disc (-5) 0 (⟨0, 3, -2, 0, 0, 1, 1, 0⟩ : Ray ℝ) = 64 := by
+    unfold disc; rw [habc]; norm_num
+  show _ ∨ _ ∨ OneRoot (-5) 0 _
+  right; right
+  unfold OneRoot
+  rw [hd, habc, ex_sqrt64]
+  norm_num [abs_of_neg]
+
+/-- the linear branch (paraboloid `k = −1`, axis-parallel ray) and the plane guard -/
+example : HitGuard (.standard 5 (-1)) (⟨0, 3, -2, 0, 0, 1, 1, 0⟩ : Ray ℝ) := by
+  have habc : conicABC 5 (-1) (⟨0, 3, -2, 0, 0, 1, 1, 0⟩ : Ray ℝ) = (0, -10, 29) := by
+    rw [conicABC_eq]; norm_num
+  show _ ∨ LinBranch 5 (-1) _ ∨ _
+  right; left
+  unfold LinBranch
+  rw [habc]
+  norm_num
+
+example : HitGuard .plane (⟨0, 3, -2, 0, 3/5, 4/5, 1, 0⟩ : Ray ℝ) := by
+  show (4/5:ℝ) ≠ 0 ∧ (0:ℝ) ≤ -(-2) / (4/5)
+  norm_num
 
 end C02
